@@ -603,6 +603,20 @@ def unit_recorder(sess, ctx):
                 eng.prove("C19:recorder-read:no-data-before-rewind", h["_data"] is None and h["_read_from_cache"] is False, props=P19)
             return None
         if op == "data0":
+            if eng.choose(2, None, "recorder state: invariant / as built by the real constructor") == 1:
+                # the object exactly as __init__ leaves it, on a wrapped source that has fields of its own (an in-memory
+                # source keeps its whole buffer in `_data` and exposes it as `data`): whatever the recorder's
+                # representation, nothing of the wrapped source may leak out through the proxy's attribute forwarding
+                eng.st.heap[inner.oid].update({"_data": fresh_seq("bytes", "inner._data"), "data": fresh_seq("bytes", "inner.data")})
+                me = eng.st.new_obj("_Recorder", {})
+                eng.run_function(ctx.fi(QU + "_Recorder.__init__"), [inner], {}, me)
+                try:
+                    eng.getattr(me, "data")
+                except PyRaise as e:
+                    eng.prove("C19:recorder-data:before-rewind-raises-RuntimeError", e.exc == "RuntimeError", props=P19)
+                    return None
+                eng.prove("C19:recorder-data:before-rewind-raises-RuntimeError", False, props=P19)
+                return None
             try:
                 eng.run_function(ctx.fi(QU + "_Recorder.data"), [], {}, me)
             except PyRaise as e:
